@@ -387,6 +387,41 @@ func propDurLiteral(args []string) string {
 	} else if inGrammar && fits && sum.Sign() > 0 {
 		return fmt.Sprintf("GROUP BY time(%s) is rejected (%v) although the sum %s fits", s, perr, sum)
 	}
+	// the same spelling several times in one text, with and without a sign: every occurrence is its own
+	// literal with its own value (round-3 seeded change C08-3 shared one node per spelling within a parser,
+	// and the unary minus negated it in place)
+	if inGrammar && fits {
+		v := sum.Int64()
+		want := []int64{-v, v, -v, v}
+		texts := []string{
+			"a > -" + s + " AND b < " + s + " AND c > -" + s + " AND d < " + s,
+		}
+		for _, t := range texts {
+			if e, err := influxql.ParseExpr(t); err == nil {
+				var got []int64
+				influxql.WalkFunc(e, func(n influxql.Node) {
+					if d, ok := n.(*influxql.DurationLiteral); ok {
+						got = append(got, int64(d.Val))
+					}
+				})
+				if fmt.Sprint(got) != fmt.Sprint(want) {
+					return fmt.Sprintf("%q: the duration literals are %v, written %v", t, got, want)
+				}
+			}
+		}
+		q := "SELECT a FROM m WHERE time > -" + s + "; SELECT a FROM m WHERE time > now() - " + s + "; SELECT a FROM m WHERE time > -" + s
+		if qq, err := influxql.ParseQuery(q); err == nil {
+			var got []int64
+			influxql.WalkFunc(qq, func(n influxql.Node) {
+				if d, ok := n.(*influxql.DurationLiteral); ok {
+					got = append(got, int64(d.Val))
+				}
+			})
+			if fmt.Sprint(got) != fmt.Sprint([]int64{-v, v, -v}) {
+				return fmt.Sprintf("%q: the duration literals are %v, written %v", q, got, []int64{-v, v, -v})
+			}
+		}
+	}
 	// as a retention policy duration (minimum 1h, or 0)
 	if st, perr := influxql.ParseStatement("CREATE RETENTION POLICY p ON d DURATION " + s + " REPLICATION 1"); perr == nil {
 		if c, ok := st.(*influxql.CreateRetentionPolicyStatement); ok {
